@@ -874,7 +874,7 @@ def gen_config(rng, system, path=None) -> dict[str, Any]:
         path = "MDAChain"
     mt = rng.pick(MTYPES)
     lu = mt == "matrix" and rng.chance(0.3)
-    return {
+    cfg = {
         "path": path,
         "mode": rng.pick(MODES),
         "matrix_type": mt,
@@ -882,6 +882,10 @@ def gen_config(rng, system, path=None) -> dict[str, Any]:
         "solver": rng.pick(SOLVERS),
         "kinds": gen_kinds(rng, system),
     }
+    if path != "assembly" and not nonlinear(system) and rng.chance(0.4):
+        # the accuracy of the coupled derivatives is the linear solver's, not the MDA's (round-5 change r5m2)
+        cfg["tol"] = rng.pick([1e-6, 1e-3, 1e-2])
+    return cfg
 
 
 def gen_kinds(rng, system) -> list[str]:
@@ -989,7 +993,9 @@ def make_mda(path, discs, cfg):
     from gemseo.mda.mda_chain import MDAChain
     from gemseo.mda.newton_raphson import MDANewtonRaphson
 
-    kw = {"tolerance": 1e-14, "max_mda_iter": 200, "use_lu_fact": bool(cfg["lu"]), "linear_solver": cfg["solver"]}
+    # cfg["tol"]: a looser MDA tolerance (linear systems only: their partial derivatives do not depend on the
+    # converged point, so the total derivatives stay exact; the tolerance of the *linear solver* is untouched)
+    kw = {"tolerance": float(cfg.get("tol", 1e-14)), "max_mda_iter": 200, "use_lu_fact": bool(cfg["lu"]), "linear_solver": cfg["solver"]}
     if path == "MDAJacobi":
         return MDAJacobi(discs, **kw)
     if path == "MDAGaussSeidel":
@@ -1367,7 +1373,8 @@ def _gen_connected_request(rng, system):
 
 def _step(req, c, **extra) -> dict[str, Any]:
     return {"functions": list(req["functions"]), "variables": list(req["variables"]), "mode": c["mode"],
-            "matrix_type": c["matrix_type"], "lu": c["lu"], "solver": c["solver"], **extra}
+            "matrix_type": c["matrix_type"], "lu": c["lu"], "solver": c["solver"],
+            **({"tol": c["tol"]} if "tol" in c else {}), **extra}
 
 
 def gen_case(rng, system=None, flavour=None, path=None) -> dict[str, Any]:
@@ -1565,6 +1572,7 @@ def step_cfg(case, step) -> dict[str, Any]:
         "matrix_type": step["matrix_type"],
         "lu": step["lu"],
         "solver": step["solver"],
+        **({"tol": step["tol"]} if "tol" in step else {}),
     }
 
 
@@ -2258,6 +2266,7 @@ def _histogram(res: Result, case, system) -> None:
         res.count(f"mode={st['mode']}->{resolved_mode(system, st, cfg)}")
         res.count(f"matrix_type={st['matrix_type']}{'+lu' if st['lu'] else ''}")
         res.count(f"solver={st['solver']}")
+        res.count(f"mda-tolerance={st.get('tol', 1e-14):g}")
         nf = sum(system["sizes"][f] for f in st["functions"])
         nv = sum(system["sizes"][v] for v in st["variables"])
         res.count("shape=" + ("square" if nf == nv else "rect"))
